@@ -14,3 +14,5 @@ pub mod c04;
 pub mod c07;
 #[cfg(kani)]
 pub mod c16;
+#[cfg(kani)]
+pub mod c18;
